@@ -158,6 +158,76 @@ impl Div for Cnt {
 }
 num_boilerplate!(Cnt, Cnt, |c: Cnt| c.0);
 
+/// The same operation-counting element with 248 bytes of padding (size 256, so `Complex<CntBig>` is 512 bytes): the public
+/// numeric bound says nothing about an element's size, and a planner that sizes its decisions by `size_of::<Complex<T>>()`
+/// (cache budgets, blocking factors) takes different branches for such a type.
+#[derive(Copy, Clone, Debug, PartialEq)]
+pub struct CntBig {
+    pub v: f64,
+    pub pad: [u64; 31],
+}
+pub fn cnt_big(v: f64) -> CntBig {
+    CntBig { v, pad: [0x5A5A_5A5A_5A5A_5A5A; 31] }
+}
+impl Add for CntBig {
+    type Output = CntBig;
+    #[inline]
+    fn add(self, o: CntBig) -> CntBig {
+        bump(0);
+        cnt_big(self.v + o.v)
+    }
+}
+impl Sub for CntBig {
+    type Output = CntBig;
+    #[inline]
+    fn sub(self, o: CntBig) -> CntBig {
+        bump(1);
+        cnt_big(self.v - o.v)
+    }
+}
+impl Mul for CntBig {
+    type Output = CntBig;
+    #[inline]
+    fn mul(self, o: CntBig) -> CntBig {
+        bump(2);
+        cnt_big(self.v * o.v)
+    }
+}
+impl Neg for CntBig {
+    type Output = CntBig;
+    #[inline]
+    fn neg(self) -> CntBig {
+        bump(3);
+        cnt_big(-self.v)
+    }
+}
+impl Div for CntBig {
+    type Output = CntBig;
+    fn div(self, o: CntBig) -> CntBig {
+        bump(4);
+        cnt_big(self.v / o.v)
+    }
+}
+num_boilerplate!(CntBig, cnt_big, |c: CntBig| c.v);
+
+/// counting element types behind one constructor
+pub trait Counting: rustfft::FftNum {
+    const NAME: &'static str;
+    fn mk(v: f64) -> Self;
+}
+impl Counting for Cnt {
+    const NAME: &'static str = "8-byte counting element";
+    fn mk(v: f64) -> Self {
+        Cnt(v)
+    }
+}
+impl Counting for CntBig {
+    const NAME: &'static str = "256-byte counting element";
+    fn mk(v: f64) -> Self {
+        cnt_big(v)
+    }
+}
+
 // ---------------------------------------------------------------------------------------------
 pub const TAG: u64 = 0xA5A5_5A5A_C3C3_3C3C;
 #[derive(Copy, Clone, Debug, PartialEq)]
